@@ -6,7 +6,7 @@ Development aid, not a registered check."""
 import json, os, re, subprocess, sys
 
 VERIF = os.path.dirname(os.path.dirname(os.path.abspath(__file__)))
-REPO = "/repo"
+REPO = os.environ.get("WWV_REPO", "/repo")   # a dev worktree may stand in for /repo
 
 
 FIRST_MISSED = {
